@@ -24,7 +24,7 @@ let rule_of = function
 
 let cfg_of = function
   | L [A "cfg"; hc; aa; ah; da; dh; L rs; L ks] ->
-    { has_config = bool_of_sym hc; c_rules = List.map rule_of rs; c_keys = List.map rule_of ks;
+    { d_has_config = bool_of_sym hc; c_rules = List.map rule_of rs; c_keys = List.map rule_of ks;
       arg_arrays = opt_str_of_sexp aa; arg_aoh = opt_str_of_sexp ah;
       def_arrays = opt_str_of_sexp da; def_aoh = opt_str_of_sexp dh }
   | x -> failwith ("bad cfg " ^ to_string x)
